@@ -87,6 +87,19 @@ TAGS = {
 }
 
 
+# blocked operation -> properties that rely on it waiting
+PROBE_TAGS = {
+    "send": {"C05", "C10", "C14", "C02"},
+    "op:dispatch": {"C02", "C04", "C05", "C06", "C18"},
+    "op:stop": {"C04", "C02"}, "op:close": {"C04", "C02"}, "op:drop_store": {"C15", "C04"},
+    "join": {"C04", "C15", "C11", "C10"}, "stop.drain": {"C04", "C15", "C11"},
+    "op:unsub": {"C09", "C10"}, "op:add_sub": {"C09", "C07"}, "op:subscribed": {"C10", "C09"}, "op:iter": {"C14"},
+    "op:next": {"C14"}, "iter.end": {"C14"}, "iter.drop": {"C14"}, "chjoin": {"C10", "C09"}, "ctxdrop": {"C10"},
+    "snap": {"C09", "C07", "C03"}, "clear": {"C09", "C04"}, "chfwd": {"C10"}, "w.start": {"C11", "C02"}, "w.cb": {"C11", "C02"},
+    "op:add_reducer": {"C07"}, "op:add_mw": {"C07"}, "op:wait": set(),
+}
+
+
 def tags_of(ev):
     """properties an (expected or observed) event speaks about"""
     if not isinstance(ev, dict) or "ev" not in ev:
@@ -172,6 +185,14 @@ def classify_replay(ctx, inst, res, behs_by_id):
 def attribute(ctx, reason, r):
     """does this conformance failure speak about ctx.pid ?"""
     tg = tags_of(r.get("expected")) | tags_of(r.get("got") if isinstance(r.get("got"), dict) else None)
+    e, g = r.get("expected"), r.get("got")
+    if isinstance(e, dict) and isinstance(g, dict) and isinstance(e.get("d"), dict) and isinstance(g.get("d"), dict):
+        if e["d"].get("rd") != g["d"].get("rd"):
+            tg = tg | {"C08"}           # what get_state() returned inside the callback
+        if e["d"].get("st") != g["d"].get("st"):
+            tg = tg | {"C01", "C08", "C03"}
+        if e.get("t") != g.get("t"):
+            tg = tg | {"C07", "C10", "C11"}     # a callback on the wrong thread
     if reason in ("blocked", "hangs where the model finishes", "finishes where the model deadlocks"):
         tg = tg | {"C13"}
     if isinstance(r.get("got"), str) and "unexpected thread" in r["got"]:
@@ -249,6 +270,28 @@ def do_gen(ctx, inst, limit):
             behs = rnd.sample(behs, limit)
             ctx.exhaustive_cover = False
         jb = [cover.to_json(g, b, i) for i, b in enumerate(behs)]
+        # blocked probes: a few states per kind of operation that must wait
+        pr = cover.probes(g, per_kind=1 if ctx.tier == "quick" else 3, max_total=8 if ctx.tier == "quick" else 40)
+        pj = [cover.probe_json(g, b, "p%d" % i, 1500 if (b["probe"]["what"].startswith("send:") and i < 2) else 250)
+              for i, b in enumerate(pr)]
+        if pj:
+            pres, ppath, ptr = replay_behaviours(inst, pj, d, "probes")
+            ctx.replayed += len(pres)
+            ctx.probes = getattr(ctx, "probes", 0) + sum(1 for x in pres if x.get("probe") == "waited")
+            byp = {b["id"]: b for b in pj}
+            for x in pres:
+                if x["outcome"] == "probe_failed":
+                    b = byp[x["id"]]
+                    what = b["probe"]["what"]
+                    tg = PROBE_TAGS.get(what.split(":")[0] if not what.startswith("op:") else what.split("/")[0], set()) | {"C13"}
+                    art = save_artifact(ctx, "probe_%s_%s" % (inst["name"], x["id"]),
+                                        {"kind": "blocked probe", "instance": inst["name"], "config": instances.harness_config(inst),
+                                         "behaviours": [b], "result": x})
+                    if ctx.pid in tg:
+                        ctx.violations.append(("thread %s went on where it has to wait (%s) in a state of %s reached by replay; it arrived at %s"
+                                               % (b["probe"]["t"], what, inst["name"], json.dumps(x.get("got"))[:200]), art))
+                    else:
+                        ctx.notes.append("blocked probe failed in %s (%s): attributed to %s" % (inst["name"], what, sorted(tg)))
         res, path, tr = replay_behaviours(inst, jb, d, "cover")
         byid = {b["id"]: b for b in jb}
         bad = classify_replay(ctx, inst, res, byid)
@@ -341,6 +384,7 @@ def write_evidence(ctx, extra=None):
         "exhaustive": bool(ctx.exhaustive_cover and ctx.gens),
         "model_checking": ctx.mc, "replay": ctx.gens, "free_runs": ctx.frees,
         "replayed_behaviours": ctx.replayed, "free_traces_accepted": ctx.traces,
+        "blocked_probes_confirmed": getattr(ctx, "probes", 0),
         "checker_cmd": "tlc (TLC2 2026.09.04) on spec/RsStore.tla + Props.tla / Gen.tla / Trace.tla, instances generated by tools/families.py",
         "known_findings_reported": [f["id"] for f, _ in ctx.known], "notes": ctx.notes[:20],
     }
